@@ -125,10 +125,24 @@ def run(ctx):
         a, b = rnd.choice(xn), rnd.choice(xn + M0 + gen.path_un(M0))
         g = rnd.choice([('G', a), ('and', b, a), ('or', a, b), ('U', b, a), ('F', ('and', a, b)), ('G', ('or', a, b)), ('R', a, b)])
         fam_x.append({'K': rnd.choice(scope3), 'f': (rnd.choice('AE'), g)})
+    # long sibling quantified subformulas (their auxiliary names are long; one of them is often unsatisfiable)
+    fam_long = []
+    while len(fam_long) < (250 if q else 10000):
+        g1, g2 = gen.rand_long_path(rnd), gen.rand_long_path(rnd)
+        q1, q2 = rnd.choice(['AA', 'EE', 'AA', 'AE'])
+        if rnd.random() < 0.5:      # make the first sibling unsatisfiable / valid so that it labels no state / every state
+            big = gen.rand_prop(rnd, 8)
+            g1 = rnd.choice([('and', ('G', big), ('F', ('not', big))), ('and', ('G', P), ('F', ('not', P)), ('X', big)), ('or', ('G', big), ('F', ('not', big)))])
+        if gen.temporal_count(g1) > 3 or gen.temporal_count(g2) > 3:
+            continue
+        f = (rnd.choice(['and', 'imp', 'or']), (q1, g1), (q2, g2))
+        if rnd.random() < 0.3:
+            f = ('not', f)
+        fam_long.append({'K': rnd.choice(scope3), 'f': f})
     shp = gen.shared_polarity_formulas()
     fam_s = [{'K': rnd.choice(scope3), 'f': (rnd.choice('AE'), g)} for g in shp for _ in range(2 if q else 10)]
     fam_e = [dict(c, mode=rnd.choice(['text', 'raw'])) for c in gen.samp(rnd, fam_a + fam_c + fam_n, 1200 if q else 15000)]
-    fams = [('scope2', fam_a), ('catalogue3', fam_b), ('nested', fam_c), ('nary', fam_n), ('next-negation', fam_x), ('shared-polarity', fam_s), ('random', fam_d), ('text', fam_e)]
+    fams = [('scope2', fam_a), ('catalogue3', fam_b), ('nested', fam_c), ('nary', fam_n), ('next-negation', fam_x), ('shared-polarity', fam_s), ('long-siblings', fam_long), ('random', fam_d), ('text', fam_e)]
     for _, fam in fams:
         for c in fam:
             c['logic'] = 'CTLS'
